@@ -151,12 +151,27 @@ func (m *Machine) switchAway(self *Thread, ended bool) {
 		panic(abort{abDeadlock, m.describeBlocked()})
 	}
 	idx := 0
+	selfRunnable := false
+	if !ended {
+		for _, t := range c {
+			if t == self {
+				selfRunnable = true
+			}
+		}
+	}
 	if m.explore && len(c) > 1 {
+		if selfRunnable && m.preemptBound > 0 && m.preemptions >= m.preemptBound {
+			// context bound reached: the running thread keeps the processor until it blocks or ends
+			return
+		}
 		idx = m.Choose(len(c))
 	}
 	next := c[idx]
 	if next == self {
 		return
+	}
+	if selfRunnable {
+		m.preemptions++
 	}
 	m.cur = next
 	next.wake <- struct{}{}
@@ -202,6 +217,16 @@ func (m *Machine) yield() {
 	m.switchAway(m.cur, false)
 }
 
+// yieldSync is the scheduling point in front of a synchronisation operation. With coarse
+// schedules (vsym_ExploreEvents) threads are preempted only at named events and when they
+// block, so these points do not fork.
+func (m *Machine) yieldSync() {
+	if m.coarse {
+		return
+	}
+	m.yield()
+}
+
 func (m *Machine) spawn(fr *frame, pos token.Pos, fn Value, args []Value) {
 	name := "go"
 	switch f := fn.(type) {
@@ -219,7 +244,7 @@ func (m *Machine) spawn(fr *frame, pos token.Pos, fn Value, args []Value) {
 		t.wake <- struct{}{}
 		m.park(self)
 	} else {
-		m.yield()
+		m.yieldSync()
 	}
 }
 
@@ -282,7 +307,7 @@ func removeWaiter(q []*chanWaiter, w *chanWaiter) []*chanWaiter {
 }
 
 func (m *Machine) chanSend(fr *frame, ch *Chan, v Value) {
-	m.yield()
+	m.yieldSync()
 	if ch == nil {
 		m.blockUntil(func() bool { return false })
 	}
@@ -331,7 +356,7 @@ func (m *Machine) chanTryRecv(ch *Chan) (Value, bool, bool) {
 }
 
 func (m *Machine) chanRecv(fr *frame, ch *Chan) (Value, bool) {
-	m.yield()
+	m.yieldSync()
 	if ch == nil {
 		m.blockUntil(func() bool { return false })
 	}
@@ -360,7 +385,7 @@ func (m *Machine) chanClose(fr *frame, ch *Chan) {
 }
 
 func (m *Machine) chanSelect(fr *frame, instr *ssa.Select) Value {
-	m.yield()
+	m.yieldSync()
 	type scase struct {
 		ch   *Chan
 		send bool
